@@ -63,6 +63,7 @@ def RenameRule.or (a b : RenameRule) : RenameRule := match a with | .none => b |
 
 inductive TyExpr
   | bool | i8 | i16 | i32 | i64 | u8 | u16 | u32 | f32 | f64 | string | char
+  | u64 | i128 | u128                   -- named `fixed` types `org.apache.avro.rust.<ty>`
   | option (t : TyExpr) | vec (t : TyExpr) | map (t : TyExpr) | boxed (t : TyExpr)
   | named (ident : Bytes)
   deriving Repr, Inhabited
@@ -352,6 +353,13 @@ def internalTagFieldsWith (go : List PName → Option Bytes → TyExpr → DOut)
 def tagStringField (tag : Bytes) : FieldHdr × PSchema :=
   ({ name := tag, doc := none, aliases := [], default := none, attrs := [] }, .string)
 
+/-- `u64`, `i128`, `u128`: the named type `fixed org.apache.avro.rust.<ty>`, defined at its first use
+and referred to afterwards -/
+def rustFixed (ty : Bytes) (size : Nat) (named : List PName) : DOut :=
+  let pn : PName := { ns := some b!"org.apache.avro.rust", name := ty }
+  if named.contains pn then some (.ref pn, named)
+  else some (.fixed { name := pn, aliases := none, doc := none, size := size, attrs := [] }, pn :: named)
+
 mutual
 /-- `<T as AvroSchemaComponent>::get_schema_in_ctxt(named_schemas, enclosing_namespace)` -/
 def deriveTy (env : DEnv) : Nat → List PName → Option Bytes → TyExpr → DOut
@@ -367,6 +375,9 @@ def deriveTy (env : DEnv) : Nat → List PName → Option Bytes → TyExpr → D
     | .f32 => some (.float, named)
     | .f64 => some (.double, named)
     | .string | .char => some (.string, named)
+    | .u64 => rustFixed b!"u64" 8 named
+    | .i128 => rustFixed b!"i128" 16 named
+    | .u128 => rustFixed b!"u128" 16 named
     | .boxed t' => go named ns t'
     | .vec t' => (go named ns t').map (fun r => (.array r.1 [], r.2))
     | .map t' => (go named ns t').map (fun r => (.map r.1 [], r.2))
